@@ -876,7 +876,7 @@ rfbWriteExact(rfbClientPtr cl,
 #ifdef FUZZING_BUILD_MODE_UNSAFE_FOR_PRODUCTION
     return 1;
 #endif
-    rfbSocket sock = cl->sock;
+    rfbSocket sock;
     int n;
     fd_set fds;
     struct timeval tv;
@@ -916,6 +916,12 @@ rfbWriteExact(rfbClientPtr cl,
 #endif
 
     LOCK(cl->outputMutex);
+    /*
+     * Read the descriptor only now: the client's own thread closes the socket under
+     * outputMutex, so the number we use cannot be closed (and handed out again to another
+     * connection or pipe) while we write.
+     */
+    sock = cl->sock;
     while (len > 0) {
         if(sock == RFB_INVALID_SOCKET) {
             errno = EBADF;
